@@ -2,7 +2,7 @@
 transitively over resolved repo callees (purity, immutability, reset-completeness, who-may-write)."""
 import ast
 
-MUTATORS = {'append', 'extend', 'insert', 'pop', 'remove', 'clear', 'update', 'setdefault', 'add', 'discard', 'sort', 'reverse', 'popitem',
+MUTATORS = {'append', 'extend', 'insert', 'pop', 'remove', 'clear', 'update', 'setdefault', 'sort', 'reverse', 'popitem',
             '__setitem__', '__delitem__', 'put', 'put_nowait', 'write', 'writeframes'}
 
 
